@@ -52,6 +52,7 @@ func (c *Contract) clauses(kind string) []*Clause {
 type SpecParam struct{ Name, Type string }
 
 type SpecFn struct {
+	Opaque bool // emitted as an uninterpreted function with a pattern-triggered definition
 	Pkg    string
 	Name   string
 	Params []SpecParam
@@ -82,7 +83,7 @@ type Specs struct {
 var clauseKw = map[string]bool{"requires": true, "ensures": true, "modifies": true, "invariant": true,
 	"decreases": true, "ghost": true, "property": true, "attr": true, "assume": true, "havoc": true}
 
-var headRe = regexp.MustCompile(`^(func|functype|iface|extern|pred|fn|ghost|inlinepkg)\b`)
+var headRe = regexp.MustCompile(`^(func|functype|iface|extern|pred|fn|ghost|inlinepkg|opaque)\b`)
 
 func loadSpecs(root string, pkgDirs map[string]string) (*Specs, error) {
 	sp := &Specs{Funcs: map[string]*Contract{}, Loops: map[string][]*Contract{}, Closures: map[string][]*Contract{},
@@ -145,6 +146,15 @@ func (sp *Specs) parseFile(pkgPath, file string) error {
 			cur, curClause = nil, nil
 			kw := headRe.FindString(txt)
 			rest := strings.TrimSpace(txt[len(kw):])
+			opaque := false
+			if kw == "opaque" {
+				opaque = true
+				kw = headRe.FindString(rest)
+				if kw != "pred" && kw != "fn" {
+					return fmt.Errorf("%s: opaque must be followed by pred or fn", where)
+				}
+				rest = strings.TrimSpace(rest[len(kw):])
+			}
 			switch kw {
 			case "inlinepkg":
 				sp.InlinePkg = append(sp.InlinePkg, rest)
@@ -169,7 +179,7 @@ func (sp *Specs) parseFile(pkgPath, file string) error {
 				if op < 0 || cp < op {
 					return fmt.Errorf("%s: bad %s header", where, kw)
 				}
-				fn := &SpecFn{Pkg: pkgPath, Name: strings.TrimSpace(head[:op]), Where: where, Body: bodyTxt}
+				fn := &SpecFn{Pkg: pkgPath, Name: strings.TrimSpace(head[:op]), Where: where, Body: bodyTxt, Opaque: opaque}
 				fn.Result = strings.TrimSpace(head[cp+1:])
 				if kw == "pred" {
 					fn.Result = "bool"
